@@ -103,3 +103,48 @@ def check_M2(ctx, rep):
                 if 'GenSym' in (st or '') or 'GenSym' in (recv_t or ''):
                     rep.viol('M2', p, 'gensym-clone', 'a GenSym is cloned: counters advanced on the copy are lost', loc=cr.loc(x))
     rep.inst('M2', 'no GenSym clone in ascent_macro')
+
+
+# syn 2 `Pat` variants that carry sub-patterns (and so may bind variables). A pattern walker that falls into `_ => {}` for one of
+# them makes the variables bound inside invisible: the rule compiler then takes a later occurrence for a NEW variable
+# (`let (y) = x + 1, bar(y, z)` silently becomes a cross product).
+PAT_VARIANTS_WITH_SUBPATTERNS = ('Ident', 'Or', 'Paren', 'Reference', 'Slice', 'Struct', 'Tuple', 'TupleStruct', 'Type')
+
+
+def check_M3(ctx, rep):
+    """exhaustiveness of the pattern walkers of the macro crate: every function that matches on a `syn::Pat` to collect / rename the
+    variables it binds has an arm for every variant that can contain a binding."""
+    cr = ctx.lib('ascent_macro')
+    n = 0
+    for path, b in sorted(cr.bodies.items()):
+        if not b['params'] or 'pattern' not in b['name']:
+            continue
+        pty = cr.s(b['params'][0].get('t')) or ''
+        if 'syn::Pat' not in pty or 'PatType' in pty:
+            continue
+        p0 = b['params'][0].get('id')
+        for x, _ in walk(b['tree']):
+            if x.get('k') != 'match' or x.get('src') not in (None, 'normal'):
+                continue
+            scr = chain_root(x['e'])
+            if scr is None or scr.get('id') != p0:
+                continue
+            have = set()
+            for a in x['arms']:
+                for y, _ in walk(a['p']):
+                    d = (y.get('path') or {}).get('d') or y.get('d') or ''
+                    if '::Pat::' in d:
+                        have.add(d.split('::Pat::')[-1].split('::')[0])
+            if len(have) < 4:
+                continue
+            n += 1
+            missing = [v for v in PAT_VARIANTS_WITH_SUBPATTERNS if v not in have]
+            rep.inst('M3', '%s: match on syn::Pat handles %d variants; binding-carrying variants missing: %s' % (path, len(have), missing or 'none'))
+            rep.functions.add(path)
+            for v in missing:
+                rep.viol('M3', path, 'pat-variant-unhandled:' + v,
+                         '`%s` has no arm for `Pat::%s`: variables bound inside such a pattern are invisible to the rule compiler - a later clause '
+                         'using one of them binds a fresh variable instead of joining on it' % (b['name'], v), loc=cr.loc(x))
+    if n == 0:
+        raise Broken('no pattern walker (match on syn::Pat) found in ascent_macro')
+    return n
